@@ -24,7 +24,7 @@ Section S.
     intros HI Hs. destruct Hs; unfold Inv in *; simpl; intros c0 Hc; auto.
     inversion Hc; subst. exists p; reflexivity.
   Qed.
-  Inductive steps : st -> st -> Prop := st_refl s : steps s s | st_trans s1 s2 s3 : steps s1 s2 -> step s2 s3 -> steps s1 s3.
+  Inductive steps (s0 : st) : st -> Prop := st_refl : steps s0 s0 | st_trans s2 s3 : steps s0 s2 -> step s2 s3 -> steps s0 s3.
   Theorem reads_are_complete s0 s : Inv s0 -> steps s0 s -> forall c, final s = Some c -> complete c.
   Proof. intros H0 Hs. assert (HI : Inv s) by (induction Hs; [assumption | eapply step_inv; eauto]). exact HI. Qed.
   (* the non-atomic variant (write straight into final) breaks the invariant: *)
